@@ -54,21 +54,45 @@ class _LikeBut:
                 yield {'bi': bi, 'but': but, 'chain': False}
                 if len(but) == 2:
                     yield {'bi': bi, 'but': but, 'chain': True}
+                # the abbreviated cell is void: a material can only come together with its density
+                if ('mat' in but) == ('rho' in but):
+                    yield {'bi': bi, 'but': but, 'chain': False, 'void': True}
+                    if len(but) == 2:
+                        yield {'bi': bi, 'but': but, 'chain': True, 'void': True}
             # the same parameter overridden at two levels of a chain: the innermost LIKE card wins
             for k, vals in BUT_OPTS.items():
                 if len(vals) == 2:
                     yield {'bi': bi, 'but': OrderedDict([(k, vals[1])]), 'chain': (k, vals[0])}
                     yield {'bi': bi, 'but': OrderedDict([(k, vals[0])]), 'chain': (k, vals[1])}
+                    # ... and at two intermediate levels of a chain of three LIKE cards (the last card changes
+                    # nothing, or another parameter): the later of the two intermediate cards wins
+                    yield {'bi': bi, 'but': OrderedDict([(k, vals[1])]), 'chain': ('3links', k, vals[0], None)}
+                    other = 'u' if k != 'u' else 'imp:n'
+                    yield {'bi': bi, 'but': OrderedDict([(k, vals[0]), (other, BUT_OPTS[other][0])]),
+                           'chain': ('3links', k, vals[1], other)}
+            yield {'bi': bi, 'but': OrderedDict([('mat', '7'), ('rho', '2.0-2')]), 'chain': ('3links-matrho', '5', '-3.50')}
 
-    def call(bi, but, chain):
+    def call(bi, but, chain, void=False):
         from harness import shim
         shim.install()
         base = BASE_OPTS[bi]
         p = _bare_parser(importances=[1.0, 1.0, 1.0])
         p.transforms = OrderedDict([(4, [5.0, 0.0, 0.0, 1.0, 0.0, 0.0, 0.0, 1.0, 0.0, 0.0, 0.0, 1.0])])
         cards = OrderedDict()
-        cards[10] = ('2 -1.5', '-1 2', _opts_text(base))
-        if isinstance(chain, tuple):
+        cards[10] = ('0' if void else '2 -1.5', '-1 2', _opts_text(base))
+        if isinstance(chain, tuple) and chain[0] == '3links':
+            _, k, v_first, other = chain
+            cards[20] = ('', 'like 10 but', _opts_text({k: v_first}))
+            cards[30] = ('', 'like 20 but', _opts_text({k: but[k]}))
+            cards[40] = ('', 'like 30 but', _opts_text({other: but[other]}) if other else '')
+            like = p.parse_one_cell(cards, 2, None, cards[40])
+        elif isinstance(chain, tuple) and chain[0] == '3links-matrho':
+            cards[20] = ('', 'like 10 but', _opts_text({'mat': chain[1], 'rho': chain[2]}))
+            cards[30] = ('', 'like 20 but', _opts_text({'mat': but['mat'], 'rho': but['rho']}))
+            cards[40] = ('', 'like 30 but', 'U=9')
+            but = OrderedDict(list(but.items()) + [('u', '9')])
+            like = p.parse_one_cell(cards, 2, None, cards[40])
+        elif isinstance(chain, tuple):
             (k2, v2), = but.items()
             cards[20] = ('', 'like 10 but', _opts_text({chain[0]: chain[1]}))
             cards[30] = ('', 'like 20 but', _opts_text({k2: v2}))
@@ -82,16 +106,16 @@ class _LikeBut:
             cards[20] = ('', 'like 10 but', _opts_text(but))
             like = p.parse_one_cell(cards, 1, None, cards[20])
         # the explicit card: copy of card 10 with the listed parameters overridden
-        mat = but.get('mat', '2')
-        rho = but.get('rho', '-1.5')
+        mat = but.get('mat', '0' if void else '2')
+        rho = but.get('rho', '' if void else '-1.5')
         merged = OrderedDict(base)
         for k, v in but.items():
             if k not in ('mat', 'rho'):
                 merged[k] = v
-        explicit = p.parse_one_cell_worker(1, None, (f'{mat} {rho}', '-1 2', _opts_text(merged)))
+        explicit = p.parse_one_cell_worker(1, None, (f'{mat} {rho}'.strip(), '-1 2', _opts_text(merged)))
         return _fields(like), _fields(explicit)
 
-    def ensures(result, bi, but, chain):
+    def ensures(result, bi, but, chain, void=False):
         like, explicit = result
         names = ('material', 'density', 'geometry', 'importance', 'universe', 'fill', 'fill-transformation', 'lattice',
                  'trcl')
